@@ -29,7 +29,7 @@ Proof.
     destruct v1; try discriminate;
       try (destruct (py_own_attr f); [discriminate|]);
       try (injection H as <- _; exact E);
-      try (destruct (String.eqb f "id"); [injection H as <- _; exact E|discriminate]).
+      try (dbind H as w0; injection H as <- _; exact E).
     + destruct (nth_error (heap s1) h); [|discriminate].
       destruct (row_attr c f); injection H as <- _; exact E.
     + destruct (String.eqb f "id"); [|discriminate]. dbind H as [s2 i].
@@ -73,7 +73,7 @@ Proof.
     destruct (row_attr c p); [|discriminate]. injection E as <- _. apply so_refl.
   - destruct (String.eqb p "id"); [|discriminate]. dbind E as [s2 i].
     injection E as <- _. apply touch_slot_so in E0. exact E0.
-  - destruct (String.eqb p "id"); [|discriminate]. injection E as <- _. apply so_refl.
+  - dbind E as w0. injection E as <- _. apply so_refl.
 Qed.
 
 Lemma follow_path_so parts : forall s v s' w, follow_path s v parts = Ok (s', w) -> so s s'.
